@@ -9,10 +9,10 @@ ENGINE = "vcheck (proptest-driven tape decoding, supervisor + 16 worker processe
 CLAIMED = {
  "C01": ("property-based testing: generated/mutated Typst sources x configs; oracle = Typst-semantic normal form N(parse(in)) == N(parse(fmt(in))); thorough tier: plus coverage-guided fuzzing (libFuzzer) of the same case space with the same oracle",
          "Exploration: deterministic sweep of the vendored fixture corpus over a width x indent grid the test-suite never uses plus proptest-generated grammar (G1) and mutation (G2) cases; the oracle keeps every token unless typst_syntax::ast hides it from evaluation, so an unanticipated change shows up as a difference. Failures are shrunk (tape, then source-level delta debugging) into replay files.",
-         "Trusts typst-syntax 0.13.1 and the drop rules of N (DESIGN.md 4.1). Inputs containing the trigger of a listed known finding are excluded and counted. Panics are C05's, erroneous output C04's business.",
+         "Trusts typst-syntax 0.13.1 and the drop rules of N (DESIGN.md 4.1). A failing case whose minimal form still contains the trigger of a listed known finding is attributed to that finding and counted (DESIGN.md 7.1). Panics are C05's, erroneous output C04's business. All public Config fields vary, incl. blank_lines_upper_bound.",
          "DESIGN.md 4.1, 5 (C01)"),
  "C02": ("differential property-based testing against the real compiler: typst::compile + typst_render of original vs formatted text",
-         "Exploration: corpus files/snippets over an unused config grid plus a typed generator of compiling programs (every bound value shown with repr) and mutants of them; pages compared as pixmaps, diagnostics compared when both fail.",
+         "Exploration: corpus files/snippets over an unused config grid plus a typed generator of compiling programs (every bound value shown with repr; std imports whose bound names are called, padded reference supplements, counted strings, mixed line endings) and mutants of them, with import reordering on in one case of five and the blank-line bound varied; pages compared as pixmaps, diagnostics compared when both fail.",
          "typst 0.13.1 with embedded fonts, one in-memory main file, fixed date; pixmaps compared through a 64-bit hash within one process.",
          "DESIGN.md 5 (C02)"),
  "C03": ("property-based testing: idempotence fmt(fmt(x)) == fmt(x), width-targeted configs; thorough tier: plus coverage-guided fuzzing (libFuzzer) of the same case space with the same oracle",
@@ -24,7 +24,7 @@ CLAIMED = {
          "Trusts typst-syntax 0.13.1 to decide well-formedness. Known-finding triggers excluded and counted.",
          "DESIGN.md 5 (C04)"),
  "C05": ("fuzzing (random + coverage-guided libFuzzer in the thorough tier) and property-based testing over arbitrary UTF-8 (random, damaged, deep nesting) with process isolation; oracle = no panic/abort/hang, refusal iff parser errors, wrapper identity",
-         "Exploration: random and damaged text, extreme configs, each of 76 nesting families at depth 1000 on an 8 MiB stack; a worker that dies pins the in-flight case.",
+         "Exploration: random and damaged text, extreme configs (max_width up to usize::MAX/2, tab_spaces 0..64, blank_lines_upper_bound 0..usize::MAX), each of 76 nesting families at depth 1000 on an 8 MiB stack; a worker that dies pins the in-flight case.",
          "Release build with debug-assertions/overflow-checks on. Nesting depth explored is bounded (1000 quick / 2000 thorough).",
          "DESIGN.md 5 (C05)"),
  "C06": ("property-based testing with comment-dense generators; oracle = comment sequence/text/word-gap and word sequence equality; thorough tier: plus coverage-guided fuzzing (libFuzzer) of the same case space with the same oracle",
@@ -56,23 +56,23 @@ CLAIMED = {
          "Continuation lines of comments, strings, raw text and disabled nodes are exempt (computed on the output).",
          "DESIGN.md 5 (C12)"),
  "C13": ("property-based testing over (source, byte range) pairs incl. erroneous sources and ranges past the end; oracle = node-boundary/cover/splice well-formed and N-equal, refusal on erroneous nodes, no panic; thorough tier: plus coverage-guided fuzzing (libFuzzer) of the same case space with the same oracle",
-         "Exploration: ranges of every class (empty, whitespace-only, exact node, mid-token, whole, past the end) on corpus, generated and damaged sources.",
+         "Exploration: ranges of every class (empty, whitespace-only, exact node, exact inner node, mid-token, whole, past the end; widths drawn below the length of the request) on corpus, generated and damaged sources; the sweep enumerates every pair of character boundaries of every corpus snippet up to 40 bytes (thorough: 160) -- exhaustive over that sub-space.",
          "A splice failure that whole-document formatting of the same text shows as well is left to C04/C01 (single-homing); the splice inherits the recorded C01 findings.",
          "DESIGN.md 5 (C13)"),
  "C14": ("model-based stateful property-based testing of the real CLI binary: generated file trees x check-mode invocation histories",
-         "Exploration: every invocation's effect on the whole tree (bytes + mtime), stdout and exit status is compared with a model that uses the library in-process; flags on either side of the subcommand, -i combined with --check across command levels, CRLF / no-final-newline / trailing-blank spellings of formatted files.",
+         "Exploration: every invocation's effect on the whole tree (bytes + mtime), stdout and exit status is compared with a model that uses the library in-process; flags on either side of the subcommand, -i combined with --check across command levels, CRLF / no-final-newline / trailing-blank spellings of formatted files, files and stdin texts of 8 - 300 kB full of multi-byte characters, file and directory names that are not valid UTF-8.",
          "format-all + non-UTF-8 eligible file: both exit codes accepted (the statement is silent). Root runs as root: unreadable = missing/dir/non-UTF-8/dangling symlink.",
          "DESIGN.md 5 (C14)"),
  "C15": ("model-based stateful property-based testing of the real CLI binary with injected read/write faults (immutable files via chattr +i)",
-         "Exploration: in-place and format-all histories; exactly the eligible changed files hold exactly the formatted text, everything else keeps bytes and mtime, failures are isolated and reported.",
+         "Exploration: in-place and format-all histories (trees as in C14, non-UTF-8 contents around formatted and unformatted text); exactly the eligible changed files hold exactly the formatted text, everything else keeps bytes and mtime, failures are isolated and reported.",
          "Same model as C14; write failures need chattr +i support (counted as skipped otherwise).",
          "DESIGN.md 5 (C15)"),
  "C16": ("differential property-based testing: CLI stdout / file contents vs the library call for the same options",
-         "Exploration: option-sensitive documents (a call whose flat length is exactly column or column+1, unsorted imports, nesting) x column 0..400 x tab-width 0..16 x reorder x front-end (stdout one/several files, stdin, -i, format-all, and call sequences of the width-only convenience function); file contents incl. erroneous texts with and without final newline, CRLF/CR spellings.",
+         "Exploration: option-sensitive documents (a call whose flat length is exactly column or column+1, unsorted imports, nesting) x column 0..400 x tab-width 0..16 x reorder x front-end (stdout one/several files, stdin, -i, format-all, and call sequences of the width-only convenience function); file contents incl. erroneous texts with and without final newline, CRLF/CR spellings, 8 - 300 kB multi-byte documents (files and stdin), names that are not valid UTF-8.",
          "The wasm artefact itself cannot be built here (no wasm32 target); pretty_print_wasm is a one-line delegate to format_with_width, which is what is tested (also in C05).",
          "DESIGN.md 5 (C16)"),
  "C17": ("history-differential property-based testing: job sets x repeated / interleaved / concurrent (2..16 threads) / cross-process histories vs fresh-process references",
-         "Exploration: randomised stress; detects leaked state that changes an output (e.g. a cache keyed by Span: near-duplicate texts share span numbers); part of the jobs go through the width-only wrapper, a ladder of descending widths is walked in order, and one marathon case makes 140 000 (thorough 1 000 000) calls in one process.",
+         "Exploration: randomised stress; detects leaked state that changes an output (e.g. a cache keyed by Span: near-duplicate texts share span numbers); job sets also hold documents nested 20 - 260 deep (state that only a deep document leaves behind) and vary blank_lines_upper_bound; part of the jobs go through the width-only wrapper, a ladder of descending widths is walked in order, and one marathon case makes 140 000 (thorough 1 000 000) calls in one process.",
          "Thread interleavings are sampled, not enumerated.",
          "DESIGN.md 5 (C17)"),
  "C18": ("property-based testing over nesting families x depth with an instrumentation counter (hook): conversions <= 2*nodes + 8",
